@@ -22,6 +22,9 @@ def nontrivial(line, rec):
 
 
 def run(ctx):
+    ctx.stream("regular_cert", gen.regular_cert_lines(ctx.rng.fork("regular_cert"), 800 if ctx.quick else 20000),
+               "CMRregularTest on graphic / cographic matrices of every size, certified by their graph (graphic => regular: GraphicRegular.v)",
+               describe=lambda c: gen.REGULAR_CERT_CODES.get(c, str(c)), nontrivial=lambda l, r: True)
     import clilib as _cl
     _cl.stream(ctx, "cligraphout", gen.cligraphout_lines(ctx.rng.fork("cligraphout"), 500 if ctx.quick else 12000, 0),
                "cmr-graphic [-t] -G: the written graph file, parsed by the Coq edge-list grammar, is a certificate for the matrix parsed from the input bytes",
